@@ -293,7 +293,7 @@ class Env:
         self.nrun += 1
         d = os.path.join(self.work, "runs", f"r{self.nrun}")
         os.makedirs(d)
-        shutil.copytree(os.path.join(self.worlds[wi]["root"], "fxpkg"), os.path.join(d, "fxpkg"))
+        fx.copy_tree(self.worlds[wi]["root"], d)
         db = os.path.join(d, "traces.sqlite3")
         make_db(db, [self.pool[t] for t in tags])
         rows = read_back(db, module, qualname)
@@ -322,6 +322,21 @@ S4 = ["ok_a", "removed", "argcls", "nontype"]
 
 def mod_tags(pool):
     return [t for t, r in pool.items() if r[0] == fx.TARGET and t != "params_pruned"]
+
+
+def tags_all_interleaved(pool, stale):
+    """every stale row of the target module, a valid row after every third one"""
+    out, valid = [], ["ok_a", "meth", "gen", "ok2", "cm", "sm", "prop", "wrapped", "ok_b", "td"]
+    for i, t in enumerate(stale):
+        out.append(t)
+        if i % 3 == 2:
+            out.append(valid[(i // 3) % len(valid)])
+    seen, res = set(), []
+    for t in out:
+        if t not in seen:
+            seen.add(t)
+            res.append(t)
+    return res
 
 
 def gen_worlds(tier, rnd):
@@ -381,6 +396,33 @@ def gen_scenarios(tier, rnd, env):
         sc(W0, ["gone_g"], module="fxpkg.gone", family="unmutated"),
         sc(W0, ["leaf_f"], module="fxpkg.sub.leaf", family="unmutated"),
     ]
+    # (d') `apply` where the TARGET module itself no longer exists (module / sub-package / top-level module removed),
+    # and the other nothing-decodable / specifier / empty / no-stub shapes through `apply`
+    out += [
+        sc(WALL, ["gone_g", "gone_g2"], module="fxpkg.gone", cmd="apply", family="apply-target-removed"),
+        sc(WALL, ["gone_g2", "gone_g"], module="fxpkg.gone", cmd="apply", verbose=True, family="apply-target-removed"),
+        sc(WALL, ["leaf_f", "leaf_f2"], module="fxpkg.sub.leaf", cmd="apply", family="apply-target-removed"),
+        sc(WALL, ["top_tf", "top_tf2"], module="fxtop", cmd="apply", verbose=True, family="apply-target-removed"),
+        sc(WALL, ["top_tf"], module="fxtop", cmd="apply", sample_count=True, family="apply-target-removed"),
+        sc(WALL, ["top_tf2", "top_tf"], module="fxtop", family="nothing-decodable"),
+        sc(WALL, [], module="fxpkg.gone", cmd="apply", family="apply-target-removed"),
+        sc(WALL, ["top"], module="fxpkg", cmd="apply", verbose=True, family="apply-nothing-decodable"),
+        sc(WALL, ["meth", "kgone", "prop_set", "ok_a", "m_removed"], qualname="K", cmd="apply", family="apply-specifier"),
+        sc(WALL, ["meth", "kgone", "ok_a"], qualname="KGone", cmd="apply", verbose=True, family="apply-specifier"),
+        sc(WALL, [], cmd="apply", family="apply-empty-store"),
+        sc(WALL, ["builtin", "removed"], cmd="apply", family="apply-no-stub-for-module"),
+        sc(W0, ["gone_g", "gone_g2"], module="fxpkg.gone", cmd="apply", family="apply-unmutated"),
+        sc(W0, ["top_tf", "top_tf2"], module="fxtop", cmd="apply", sample_count=True, family="apply-unmutated"),
+    ]
+    # (d'') `apply` with every stale kind in one store (all of them skipped, the valid rows applied)
+    out.append(sc(WALL, tags_all_interleaved(env.pool, stale), cmd="apply", verbose=True, family="apply-every-kind"))
+    out.append(sc(WALL, tags_all_interleaved(env.pool, stale), cmd="apply", sample_count=True, family="apply-every-kind"))
+    # ... and each stale kind alone between valid rows (quick: every second kind, the others through `stub` above)
+    for i, t in enumerate(stale):
+        if quick and i % 2:
+            continue
+        p = (i // 2) % 4
+        out.append(sc(WALL, V3[:p] + [t] + V3[p:], cmd="apply", verbose=bool((i // 2) % 2), family="apply-every-kind"))
     # (e) the unmutated package: the whole pool decodes except the local-scope function
     out.append(sc(W0, tags, sample_count=True, family="unmutated"))
     out.append(sc(WALL, tags, verbose=True, sample_count=True, family="whole-pool"))
@@ -430,8 +472,15 @@ def evaluate(env, scenarios, workname):
     jobs += [(second[k]["dir"], second[k]["db"], second[k]["argv"]) for k in keys2]
     outs = run_cli_many(jobs)
     env.nproc += len(jobs)
+    def read_src(root, module):
+        f = fx.source_file(root, module)
+        return None if f is None else canon_unions(open(f).read())
     for p, o in zip(prepared, outs):
         p["obs1"] = o
+        p["file1"] = read_src(p["dir"], p["s"]["module"])
+        p["orig"] = read_src(env.worlds[p["s"]["world"]]["root"], p["s"]["module"])
+    for k in keys2:
+        second[k]["file2"] = read_src(second[k]["dir"], k[1])
     for k, o in zip(keys2, outs[len(prepared):]):
         second[k]["obs2"] = o
     terms = []
@@ -440,6 +489,7 @@ def evaluate(env, scenarios, workname):
         s2 = second[p["key2"]]
         p["obs2"] = s2["obs2"]
         p["rows2"] = s2["rows2"]
+        p["file2"] = s2["file2"]
         rundir = p["dir"]
         args = (f"(Args {'CStub' if s['cmd'] == 'stub' else 'CApply'} {coq_str(s['module'])} "
                 f"{coq_opt(None if s['qualname'] is None else coq_str(s['qualname']))} {coq_bool(s['verbose'])} "
@@ -457,6 +507,38 @@ def describe(env, p):
     return (f"world(mutations)={env.worlds[s['world']]['muts']} rows(in store order)={p['tags1']} "
             f"argv={cli_argv(s)} -> rc={p['obs1'][0]} stdout={p['obs1'][1][:300]!r} stderr={p['obs1'][2][-600:]!r}; "
             f"decodable rows alone {p['tags2']} -> rc={p['obs2'][0]} stdout={p['obs2'][1][:300]!r} stderr={p['obs2'][2][-300:]!r}")
+
+
+class cases_built:
+    """Holds the shared build lock, regenerates Gen/*.v from the repo under test and (re)builds Check/DecodeCases.vo, so
+    that the case shards are evaluated against exactly that build (checks running in parallel regenerate
+    Gen/Constants.v from *their* tree)."""
+
+    def __enter__(self):
+        import fcntl
+        self.lock = open(os.path.join(common.VERIF, ".build.lock"), "w")
+        fcntl.flock(self.lock, fcntl.LOCK_EX)
+        try:
+            ok, msg = common.regenerate_all()
+            if not ok:
+                raise RuntimeError("source extractor failed closed: " + msg)
+            if common.write_coqproject() or not os.path.exists(os.path.join(common.COQ, "Makefile")):
+                subprocess.run(["coq_makefile", "-f", "_CoqProject", "-o", "Makefile"], cwd=common.COQ,
+                               capture_output=True, text=True)
+            p = subprocess.run(["timeout", "900", "make", "-j", "8", "Check/DecodeCases.vo"], cwd=common.COQ,
+                               capture_output=True, text=True)
+            if p.returncode != 0:
+                raise RuntimeError("Check/DecodeCases.vo does not build: " + (p.stdout + p.stderr)[-800:])
+        except BaseException:
+            self.__exit__(None, None, None)
+            raise
+        return self
+
+    def __exit__(self, *exc):
+        import fcntl
+        fcntl.flock(self.lock, fcntl.LOCK_UN)
+        self.lock.close()
+        return False
 
 
 def run(ctx):
@@ -506,9 +588,26 @@ def run(ctx):
     pb = evaluate(env, [sc(wi, ["ok_a", "params_pruned", "meth"], family="prune")], "p")[1][0]
     prune_terms = [f"PCase {outcome_term(*pa['obs1'])} {outcome_term(*pb['obs1'])}"]
 
+    # ---- `apply` rewrites the source file: same file as with the decodable rows alone, and it is what was printed ----
+    file_preps = [p for p in prepared if p["s"]["cmd"] == "apply" and "Traceback (most recent call last):" not in p["obs1"][2]]
+    file_terms = []
+    for p in file_preps:
+        out1 = canon_unions(p["obs1"][1])
+        chunks = [] if out1 == "" else ([out1[:-1]] if out1.endswith("\n") else ["?no-trailing-newline", out1])
+        o = lambda x: coq_opt(None if x is None else coq_str(x))
+        file_terms.append(f"FCase {o(p['orig'])} {o(p['file1'])} {o(p['file2'])} {coq_list(coq_str(c) for c in chunks)}")
+    dist["apply_file_cases"] = len(file_terms)
+
     header = HEADER + env.world_defs() + "\n"
     failures, mismatches = [], []
-    outs = common.run_coq_shards(ctx.work, "c10row", header, row_terms, "rcase", "bad verdict_row 0 cases")
+    with cases_built():
+        shard_outs = {
+            "row": common.run_coq_shards(ctx.work, "c10row", header, row_terms, "rcase", "bad verdict_row 0 cases"),
+            "cli": common.run_coq_shards(ctx.work, "c10cli", header, cli_terms, "scase", "bad verdict_cli 0 cases", shard_size=20),
+            "prune": common.run_coq_shards(ctx.work, "c10prune", header, prune_terms, "pcase", "bad verdict_prune 0 cases"),
+            "file": common.run_coq_shards(ctx.work, "c10file", HEADER, file_terms, "fcase", "bad verdict_file 0 cases", shard_size=20),
+        }
+    outs = shard_outs["row"]
     for i, code in common.parse_bad(outs):
         r = row_recs[i]
         rec = dict(r, code=code, term=row_terms[i][:3000], kind="row")
@@ -519,7 +618,7 @@ def run(ctx):
         else:
             rec["what"] = f"to_trace model/real differ (code {code}) for row {r['tag']} in world {r['world']}: real {r['real']}"
             mismatches.append(rec)
-    outs = common.run_coq_shards(ctx.work, "c10cli", header, cli_terms, "scase", "bad verdict_cli 0 cases", shard_size=20)
+    outs = shard_outs["cli"]
     for i, code in common.parse_bad(outs):
         p = prepared[i]
         rec = {"scenario": p["s"], "world_mutations": env.worlds[p["s"]["world"]]["muts"], "code": code, "kind": "cli",
@@ -531,7 +630,15 @@ def run(ctx):
         else:
             rec["what"] = f"model/real differ (code {code}): " + describe(env, p)
             mismatches.append(rec)
-    outs = common.run_coq_shards(ctx.work, "c10prune", header, prune_terms, "pcase", "bad verdict_prune 0 cases")
+    for i, code in common.parse_bad(shard_outs["file"]):
+        p = file_preps[i]
+        rec = {"scenario": p["s"], "world_mutations": env.worlds[p["s"]["world"]]["muts"], "code": code, "kind": "cli",
+               "tags1": p["tags1"], "tags2": p["tags2"], "obs1": p["obs1"], "obs2": p["obs2"],
+               "file_after_full_store": p["file1"], "file_after_decodable_alone": p["file2"],
+               "what": "`apply` leaves a different source file than with the decodable rows alone (or not the one it printed): "
+                       + describe(env, p)}
+        (failures if code == 2 else mismatches).append(rec)
+    outs = shard_outs["prune"]
     for i, code in common.parse_bad(outs):
         rec = {"kind": "prune", "code": code, "with_unknown_name": pa["obs1"], "pruned": pb["obs1"],
                "what": "a traced parameter name that no longer exists changes the stub: " + describe(env, pa)
@@ -548,7 +655,7 @@ def run(ctx):
                 "decodable_alone": p["tags2"], "stdout_equal": p["obs1"][1] == p["obs2"][1]}
                for p in prepared[:3]]
     return {
-        "evaluations": len(row_terms) + len(cli_terms) + len(prune_terms),
+        "evaluations": len(row_terms) + len(cli_terms) + len(prune_terms) + len(file_terms),
         "distinct_nontrivial": len(nontrivial) + len({common.digest(t) for t in row_terms}),
         "rule": "fixture package mutated on disk; (i) every pool row x every world: real to_trace (fresh interpreter) vs model, "
                 "class and message; (ii) stores = every stale kind at every position between 3 valid rows, all subsets/orders "
